@@ -19,7 +19,9 @@ pub fn decode(tape: &[u8]) -> Input {
     let raw = t.u16() as u32;
     // bit 16: the TOCTOU trigger has a sink call on both sides of a branch (two thirds of the cases)
     // bit 17: deep-expression trigger (half of the cases)
-    let mask = raw | 0b0010_0011_0010_0001 | if raw % 3 != 0 { 1 << 16 } else { 0 } | if (raw >> 3) & 1 == 1 { 1 << 17 } else { 0 };
+    let mask = raw | 0b0010_0011_0010_0001 | if raw % 3 != 0 { 1 << 16 } else { 0 } | if (raw >> 3) & 1 == 1 { 1 << 17 } else { 0 }
+        // bit 18: allocation wrapper with a constant and an unknown size (half of the cases)
+        | if (raw >> 4) & 1 == 1 { 1 << 18 } else { 0 };
     let at = t.pos();
     let body = if at <= tape.len() { &tape[at..] } else { &tape[0..0] };
     gen_input(body, kind, &PROFILE_C23, Pack::User(mask), debug)
